@@ -146,6 +146,36 @@ def body_factory(tier, seed):
                                   {"kind": "history", "request": [r[0], r[1], r[2], r[4]], "verdict_after_history": v,
                                    "verdict_alone": ref[i], "preceding_requests": prev,
                                    "history": [[rows[j][0], rows[j][1], rows[j][2], rows[j][4]] for j in order[:pos]][-40:]})
+        # 2b. the same message OBJECT validated again (an application that validates before queueing and the library
+        #     validating on send; a relay): validation may rewrite the payload it was given, the verdict stays
+        from ocpp.exceptions import OCPPError as _OE
+        from ocpp.messages import Call as _Call, CallResult as _CR, _validate_payload as _vp
+
+        def _again(msg, version):
+            try:
+                _vp(msg, version)
+                return ("accept", None)
+            except _OE as e:
+                return ("reject", e.code)
+            except Exception as e:  # noqa: BLE001
+                return ("crash", "%s: %s" % (type(e).__name__, str(e)[:120]))
+        M._validators.clear()
+        again = [i for i, r in enumerate(rows) if r[2] in ("SetChargingProfile", "RemoteStartTransaction", "GetCompositeSchedule")][:400]
+        again += rng.sample(range(len(rows)), min(150, len(rows)))
+        for i in again:
+            r = rows[i]
+            if r[3] == "foreign-action":
+                continue
+            msg = _Call("i", r[2], copy.deepcopy(r[4])) if r[1] == "Call" else _CR("i", copy.deepcopy(r[4]), r[2])
+            v1 = _again(msg, r[0])
+            v2 = _again(msg, r[0])
+            v3 = _again(copy.deepcopy(msg), r[0])
+            rep.count("again:%d" % i, nontrivial=False)
+            if not (short(v1) == short(v2) == short(v3) == ref[i]):
+                rep.violation("C13:revalidated:%s:%s:%s" % (r[0], r[1], r[2]),
+                              "%s %s %s: first validation of the message object %r, the same object again %r, a deep copy of it %r, alone %r" % (
+                                  r[0], r[1], r[2], short(v1), short(v2), short(v3), ref[i]),
+                              {"kind": "revalidated", "request": [r[0], r[1], r[2], r[4]], "verdicts": [list(map(str, x)) for x in (v1, v2, v3)], "alone": ref[i]})
         # 3. threads: the requests split over 8 worker threads started together, cache cold
         for rounds in range(4 if tier == "quick" else 8):
             M._validators.clear()
